@@ -124,7 +124,7 @@ fn ecm_oneshot_parallel(pts: Vec<Point>, curves: Vec<Ell>, b1: u64, b2: u64) -> 
         }
     }
     // Step 2: try all primes in range (b1, b2]
-    for &init in &[b1.saturating_sub(1) / 6 * 6 + 1, (b1 + 1) / 6 * 6 - 1] {
+    for &init in &[b1.saturating_sub(1) / 6 * 6 + 1, ((b1 + 1) / 6 * 6).max(6) - 1] {
         let mut cur_e = init;
         let p6 = {
             let mut tmp = Vec::with_capacity(k);
